@@ -1130,9 +1130,11 @@ class VM:
             if key_str == "BYTES_PER_ELEMENT":
                 return obj._element_size
             if key_str == "buffer":
-                # Return the underlying buffer if it exists
-                buffer = getattr(obj, "_buffer", None)
-                return buffer if buffer is not None else UNDEFINED
+                return obj._buffer
+            if key_str == "byteOffset":
+                return obj._byte_offset
+            if key_str == "byteLength":
+                return obj.length * obj._element_size
             # Built-in typed array methods
             typed_array_methods = ["toString", "join", "subarray", "set"]
             if key_str in typed_array_methods:
@@ -1818,9 +1820,6 @@ class VM:
             result = type(arr)(max(0, end - begin))
             for i in range(begin, end):
                 result.set_index(i - begin, arr.get_index(i))
-            # Share the same buffer if the original has one
-            if hasattr(arr, "_buffer"):
-                result._buffer = arr._buffer
             return result
 
         def set_fn(*args):
